@@ -13,7 +13,7 @@ What is never inlined:
   * bodies that would grow beyond a size limit.
 The helper's own body stays in the database unchanged (it is still analysed as a function of its own).
 """
-import copy, os, re
+import copy, json, os, re
 
 MAX_BLOCKS = 4000
 MAX_DEPTH = 3
@@ -111,11 +111,31 @@ def touches_primitives(g):
     return g._prim
 
 
+_REFERENCE = None
+
+
+def reference_fns():
+    """function ids of the tree the rule instances were confirmed on (tools/gen_reference_fns.py)"""
+    global _REFERENCE
+    if _REFERENCE is None:
+        try:
+            _REFERENCE = set(json.load(open(os.path.join(os.path.dirname(os.path.abspath(__file__)), "reference_fns.json"))))
+        except (OSError, ValueError):
+            _REFERENCE = set()
+    return _REFERENCE
+
+
 def inlinable(db, caller, g, mode="cons"):
     if g is None or g.id == caller.id:
         return False
     if g.raw.get("is_async"):
         return False
+    if mode == "new":
+        # exactly the helpers that did not exist on the reference tree: what a later change extracted
+        ref = reference_fns()
+        if not ref or g.id in ref:
+            return False
+        return g.kind in ("fn", "method") and g.crate == caller.crate and not (g.raw.get("trait_item") or g.raw.get("in_trait")) and "::tests::" not in g.id
     if mode.startswith("cons") and touches_primitives(g):
         return False
     if g.kind not in ("fn", "method"):
